@@ -117,6 +117,51 @@ def long_runs(ctx, count=1, trials=5200):
     return runs
 
 
+def behaviour_replay(ctx, pid):
+    """spec -> code: every behaviour of AGP.tla for DoGlobalIteration(T) over all objectives with values in a finite set is replayed
+    on the real solver (the objective returns the k-th value of the behaviour at its k-th call); BehaviourMatch.tla requires the real
+    trial coordinates to be one of the model's sequences for that objective.  Returns (number of objectives, behaviours, states)."""
+    from .common import report, tagged_values, unq, write_ndjson
+    from .tlc import TLCError, require_ok, run_tlc
+    cfgs = [(1, "2", ("0", "1", "2"), 5), (2, "3", ("0", "1"), 5)] if ctx.quick else \
+           [(1, "2", ("0", "1", "2"), 7), (1, "3", ("0", "1", "3"), 6), (2, "3", ("0", "1", "2"), 6), (3, "2", ("0", "1"), 6)]
+    recs, nbeh, states = [], 0, 0
+    for (n, r, vals, T) in cfgs:
+        cfg = agp_cfg(dim=n, r=r, eps="1/100000", limit=1000, vals=vals, maxcalls=1, maxbatch=T, maxtrials=T, invs=["EmitBehaviour"])
+        res = run_tlc("AGP", cfg, workers=1, timeout=3000, xmx="6g")
+        require_ok(res, "AGP behaviour generation")
+        states += res.distinct
+        model = {}
+        for b in tagged_values(res.out, "BEH"):
+            model.setdefault(tuple(b[2]), set()).add(tuple(b[1]))
+            nbeh += 1
+        for zs, xss in sorted(model.items()):
+            vals_f = [float(unq(z)) for z in zs]
+            counter = [0]
+
+            def f(y, vals_f=vals_f, counter=counter):
+                k = counter[0]
+                counter[0] += 1
+                return vals_f[k] if k < len(vals_f) else vals_f[-1]
+            lo, up = rand_box_solver(ctx.rng, n)
+            run = SolverRun(FnProblem(n, lo, up, f, "by-call-index"), r=float(unq(r)), eps=1e-5, limit=1000, m=10, tag="behaviour-replay",
+                            full_snap=False, listener="none")
+            run.dgi(T)
+            recs.append({"id": len(recs) + 1, "code": [e["x"] for e in run.events if e["ev"] == "trial"], "model": [list(x) for x in sorted(xss)],
+                         "_zs": zs, "_n": n, "_r": r})
+    path = ctx.path("behaviours.ndjson")
+    write_ndjson(path, [{k: v for k, v in r.items() if not k.startswith("_")} for r in recs])
+    res = run_tlc("BehaviourMatch", "SPECIFICATION Spec\nCHECK_DEADLOCK FALSE\n", env={"TRACE_FILE": path}, workers=1, timeout=3000, xmx="4g")
+    vs = tagged_values(res.out, "VERDICT")
+    if not res.ok or not vs or vs[-1][0]["records"] != len(recs):
+        raise TLCError("BehaviourMatch gave no verdict:\n" + res.out[-2000:])
+    for rid in vs[-1][0]["failed"]:
+        r = recs[rid - 1]
+        report(ctx, "%s clause=NotABehaviourOfTheModel N=%d" % (pid, r["_n"]),
+               {"objective_values_by_call": r["_zs"], "r": r["_r"], "trial_coordinates_of_the_code": r["code"], "model_sequences": r["model"][:4]})
+    return {"objectives": len(recs), "behaviours": nbeh, "states": states}
+
+
 def sample_of(run):
     init = run.events[0]
     return {"problem": init.get("tag"), "n": init["n"], "m": init["m"], "r": init["r"], "eps": init["eps"],
